@@ -709,6 +709,38 @@ static void gen_workload(uint64_t seed, uint64_t widx, const GenOpts& go, Plan& 
       }
       return;
     }
+    // Second systematic pass: the same function of TWO different types (template instantiations) at
+    // once — state that is per instantiation in one place and per process in another (a lock per
+    // type around a helper shared by all types) only shows when the callers use different types.
+    if (widx < 2 * nc) {
+      const OpDef* d = cells[(size_t)(widx - nc)].first;
+      int fn = cells[(size_t)(widx - nc)].second;
+      const OpDef* partner = nullptr;
+      size_t nd = h::n_defs();
+      size_t start = 0;
+      for (size_t i = 0; i < nd; ++i)
+        if (h::def_at(i) == d) start = i;
+      for (size_t k = 1; k < nd && !partner; ++k) {
+        const OpDef* e = h::def_at((start + k) % nd);
+        if (e == d || e->family[0] != d->family[0] || fn >= e->nfn || strcmp(e->fn_names[fn], d->fn_names[fn]) != 0) continue;
+        if (!go.only_op.empty() && strncmp(e->name, go.only_op.c_str(), go.only_op.size()) != 0) continue;
+        partner = e;
+      }
+      if (partner) {
+        int nt = d->heavy ? 4 : 6;
+        pl.tasks.resize((size_t)nt);
+        for (int t = 0; t < nt; ++t) {
+          const OpDef* use = (t % 2 == 0) ? d : partner;
+          PlanOp op = random_op(r, use);
+          op.p[0] = fn;
+          op.rep = 1;
+          op.throw_at = -1;
+          pl.tasks[(size_t)t].push_back(op);
+          if (!use->heavy) pl.tasks[(size_t)t].push_back(op);
+        }
+        return;
+      }
+    }
   }
   // swarm: number of tasks
   double u = r.unit();
